@@ -152,3 +152,22 @@ int snprintf(char* buf, size_t cap, const char* fmt, ...) { va_list ap; va_start
 int sprintf(char* buf, const char* fmt, ...) { va_list ap; va_start(ap, fmt); int r = vsnprintf(buf, (size_t)1 << 30, fmt, ap); va_end(ap); return r; }
 int vsprintf(char* buf, const char* fmt, va_list ap) { return vsnprintf(buf, (size_t)1 << 30, fmt, ap); }
 size_t wcslen(const int* s) { size_t n = 0; while (s[n]) n++; return n; }
+/* time zone model: UTC (localtime == gmtime) */
+struct vtm { int tm_sec, tm_min, tm_hour, tm_mday, tm_mon, tm_year, tm_wday, tm_yday, tm_isdst; long tm_gmtoff; const char* tm_zone; };
+static struct vtm vtm_buf;
+struct vtm* gmtime(const long* tp)
+{
+	long t = *tp; long days = t / 86400; long rem = t % 86400; if (rem < 0) { rem += 86400; days--; }
+	vtm_buf.tm_hour = (int)(rem / 3600); vtm_buf.tm_min = (int)((rem / 60) % 60); vtm_buf.tm_sec = (int)(rem % 60);
+	vtm_buf.tm_wday = (int)((days % 7 + 11) % 7);
+	long z = days + 719468; long era = (z >= 0 ? z : z - 146096) / 146097; long doe = z - era * 146097;
+	long yoe = (doe - doe / 1460 + doe / 36524 - doe / 146096) / 365; long y = yoe + era * 400; long doy = doe - (365 * yoe + yoe / 4 - yoe / 100);
+	long mp = (5 * doy + 2) / 153; long d = doy - (153 * mp + 2) / 5 + 1; long m = mp + (mp < 10 ? 3 : -9); if (m <= 2) y++;
+	vtm_buf.tm_mday = (int)d; vtm_buf.tm_mon = (int)m - 1; vtm_buf.tm_year = (int)(y - 1900);
+	static const int cum[12] = { 0, 31, 59, 90, 120, 151, 181, 212, 243, 273, 304, 334 };
+	int leap = (y % 4 == 0 && (y % 100 != 0 || y % 400 == 0));
+	vtm_buf.tm_yday = cum[m - 1] + (int)d - 1 + (leap && m > 2 ? 1 : 0);
+	vtm_buf.tm_isdst = 0; vtm_buf.tm_gmtoff = 0; vtm_buf.tm_zone = "UTC";
+	return &vtm_buf;
+}
+struct vtm* localtime(const long* tp) { return gmtime(tp); }
